@@ -57,6 +57,24 @@ impl JournalReader {
         })
     }
 
+    /// Returns `true` if the file holds only an incomplete journal header, i.e. the writer
+    /// was interrupted after it had created the file and before the header was fully written.
+    /// Such a file does not contain any event.
+    pub fn is_header_incomplete(path: &Path) -> anyhow::Result<bool> {
+        let mut header = HQ_JOURNAL_HEADER.to_vec();
+        EventSerializationConfig::config().serialize_into(
+            &mut header,
+            &JournalVersion {
+                major: HQ_JOURNAL_VERSION_MAJOR,
+                minor: HQ_JOURNAL_VERSION_MINOR,
+            },
+        )?;
+        if std::fs::metadata(path)?.len() >= header.len() as u64 {
+            return Ok(false);
+        }
+        Ok(header.starts_with(&std::fs::read(path)?))
+    }
+
     pub fn contains_partial_data(&self) -> bool {
         self.partial_data_error
     }
